@@ -130,7 +130,7 @@ def gen_cmds(tier, rng):
 
 def to_script(case): return [fmt(c) for c in case]
 
-EXTRA_PROPERTY_FILES = ("Properties_timestamp",)   # obligations over the regenerated Gen_timestamp.v (translator/timestamp.py): the four Timestamp functions translated from the source
+EXTRA_PROPERTY_FILES = ("Properties_timestamp", "Properties_builder")   # obligations over the regenerated Gen_timestamp.v (translator/timestamp.py): the four Timestamp functions translated from the source
 def run(ctx):
     rep, tier, rng = ctx["report"], ctx["tier"], ctx["rng"]
     cmds = gen_cmds(tier, rng)
